@@ -80,7 +80,7 @@ class EngineBase:
                 return False
         key = tuple(c.get_id() for c in cs)
         if key in self._feas_cache:
-            return self._feas_cache[key]
+            return self._feas_cache[key][0]
         import time
         t = time.time()
         s = self._solver()
@@ -89,7 +89,7 @@ class EngineBase:
         self.n_solver += 1
         self.t_solver += time.time() - t
         res = r != z3.unsat          # unknown counts as feasible (sound: explores more)
-        self._feas_cache[key] = res
+        self._feas_cache[key] = (res, cs)      # keep the terms alive: z3 ast ids are reused after collection
         return res
 
     def valid(self, pc, goal) -> bool:
@@ -99,6 +99,9 @@ class EngineBase:
         return not self.feasible(pc, z3.Not(goal))
 
     def add_obligation(self, st: State, label: str, goal, kind="side"):
+        if self.spec_mode and getattr(self, "spec_polarity", "prove") == "assume":
+            # an assumed formula is the same bit-vector formula its prover discharged: no new side condition
+            return
         g = z3.simplify(goal)
         if z3.is_true(g):
             return
